@@ -118,6 +118,24 @@ class FakePath:
     def exists(self, p):
         return bool(SBool(z3.Bool(f"exists{self.o.fresh()}")))
 
+    def _predicate(self, kind, p):
+        # an arbitrary but functional answer (the same path always gets the same answer); deliberately NOT tied to the
+        # canonical forms, so that asking does not count as canonicalising
+        f = z3.Function(f"path_{kind}", z3.StringSort(), z3.BoolSort())
+        return bool(SBool(f(zstr(p))))
+
+    def islink(self, p):
+        return self._predicate("islink", p)
+
+    def isfile(self, p):
+        return self._predicate("isfile", p)
+
+    def isdir(self, p):
+        return self._predicate("isdir", p)
+
+    def lexists(self, p):
+        return self._predicate("lexists", p)
+
 
 def sym_dirname(p):
     """z3-string transcription of posixpath.dirname."""
@@ -340,6 +358,35 @@ def _concretise(model, info, fos, base):
                 missing=(info or {}).get("missing"))
 
 
+def attack_layouts():
+    """real directory tree with one escaping location per layer; returns the locations the real library reads"""
+    import onnx_ir as ir
+
+    root = tempfile.mkdtemp(prefix="c10l_")
+    leaks = []
+    try:
+        base = os.path.join(root, "base")
+        os.makedirs(base)
+        os.makedirs(os.path.join(root, "outside"))
+        for nm in ("secret.bin", "secret2.bin"):
+            with open(os.path.join(root, "outside", nm), "wb") as f:
+                f.write(b"SECRET!!")
+        os.symlink("../outside/secret.bin", os.path.join(base, "link.bin"))          # file symlink
+        os.symlink("../outside", os.path.join(base, "d"))                            # symlinked directory
+        os.link(os.path.join(root, "outside", "secret2.bin"), os.path.join(base, "hard.bin"))   # hard link
+        for loc in ("link.bin", "d/secret.bin", "hard.bin", "../outside/secret.bin", os.path.join(root, "outside", "secret.bin")):
+            for how in ("numpy", "tobytes"):
+                t = ir.ExternalTensor(loc, 0, 8, ir.DataType.UINT8, shape=ir.Shape([8]), name="t", base_dir=base)
+                try:
+                    getattr(t, how)()
+                    leaks.append(f"{loc} ({how})")
+                except Exception:   # noqa: BLE001 - any refusal is acceptable
+                    pass
+    finally:
+        shutil.rmtree(root, ignore_errors=True)
+    return leaks
+
+
 def realise_and_read(c):
     """Build a real directory tree in which abspath/realpath/st_nlink take the model's values (all
     under a temporary root), then read through every entry point of the real library."""
@@ -347,7 +394,12 @@ def realise_and_read(c):
     import onnx_ir as ir
 
     if c.get("base_abs") is None:
-        return True, f"accepted without canonicalising {c.get('missing')}"
+        # the symbolic run accepted a location without asking for one of the canonical forms: confirm on the real code with
+        # the standard layouts each layer exists for
+        leaks = attack_layouts()
+        if leaks:
+            return True, f"accepted without canonicalising {c.get('missing')}; on a real directory tree these locations were read although they leave the base directory: {leaks}"
+        return False, f"accepted without canonicalising {c.get('missing')}, but none of the standard escaping layouts could be read"
     root = tempfile.mkdtemp(prefix="c10_")
     try:
         def R(p):
